@@ -611,6 +611,20 @@ pub struct Seq(pub Vec<Call>);
 pub fn run(ctx: &mut Ctx) {
     ctx.rule("exhaustive: EVERY sequence of up to D calls (quick 4, thorough 6) over a 17-letter alphabet covering the whole writer API (start_file good / bad level / unsupported method / encrypted, start_file_with_extra_data good / bad, start_file_aligned, write of plain data / valid extra record / reserved-id record, end_extra_data, end_local_start_central_extra_data, add_directory, add_symlink, raw copy, set_comment, finish), each followed by finish() and drop; random: sequences of up to 200 calls over the full parameter domains (6 methods x 4 level classes x large_file, 9 data shapes incl. ZIP64-id/truncated/oversize extra records, alignments, comments up to 65536 bytes). Oracle: executable model of the documented state machine - no call panics; documented misuse returns Err; calls valid in their state return Ok; whenever finish() succeeds on a history without unspecified steps the archive parses strictly and holds exactly the successfully created entries with exactly the accepted bytes. Non-trivial = the sequence contains at least one expected-Err call and at least one created entry; enumerated sequences are distinct by construction.");
     ctx.assume("undocumented-but-accepted inputs (Stored with an explicit level, Zstd levels far below -7, a second end_local_start_central_extra_data, write after a raw copy, alignment > 32768, flush) are 'either outcome, no panic' and end the end-claim for that history");
+    if let Some(c) = ctx.replay_case("fuzz_raw") {
+        let bytes = crate::util::unhex(c["bytes"].as_str().unwrap_or("")).unwrap_or_default();
+        let mut u = arbitrary::Unstructured::new(&bytes);
+        let mut seq = Vec::new();
+        while !u.is_empty() && seq.len() < 64 {
+            match decode_call(&mut u) {
+                Some(c) => seq.push(c),
+                None => break,
+            }
+        }
+        let mut info = Info::default();
+        ctx.replay_verdict = Some(Verdict::from_result(check_sequence(&seq, &mut info)));
+        return;
+    }
     let alpha = alphabet();
     let a = alpha.len() as u64;
     let depth = ctx.q(4u32, 6);
@@ -647,4 +661,35 @@ pub fn run(ctx: &mut Ctx) {
             Verdict::from_result(check_sequence(&s.0, info))
         },
     );
+}
+
+/// Decode one call from fuzzer bytes (hand-written arbitrary layer).
+pub fn decode_call(u: &mut arbitrary::Unstructured) -> Option<Call> {
+    let o = |u: &mut arbitrary::Unstructured| -> Option<O> {
+        let m = [M::Stored, M::Deflated, M::Bzip2, M::Zstd, M::Aes, M::Unsupported14][u.int_in_range(0..=5usize).ok()?];
+        let l = [L::None, L::None, L::InRange, L::Below, L::Above][u.int_in_range(0..=4usize).ok()?];
+        Some(O { m, l, large: u.ratio(1u8, 5u8).ok()? })
+    };
+    let d = |u: &mut arbitrary::Unstructured| -> Option<D> { Some([D::Plain, D::Plain, D::Empty, D::Big, D::ExtraValid, D::ExtraValid2, D::ExtraReserved, D::ExtraZip64, D::ExtraTruncated, D::ExtraOversize][u.int_in_range(0..=9usize).ok()?]) };
+    let n = u.arbitrary::<u8>().ok()?;
+    Some(match u.int_in_range(0..=13u8).ok()? {
+        0 | 1 => Call::StartFile(n, o(u)?),
+        2 => Call::StartEncrypted(n),
+        3 => Call::StartExtra(n, o(u)?),
+        4 => Call::StartAligned(n, o(u)?, [0u16, 1, 4, 64, 4096, 32768, 65535, 513][u.int_in_range(0..=7usize).ok()?]),
+        5 | 6 => Call::Write(d(u)?),
+        7 => Call::EndExtra,
+        8 => Call::EndLocalStartCentral,
+        9 => Call::AddDir(n, o(u)?),
+        10 => Call::AddSymlink(n, o(u)?),
+        11 => Call::SetComment(n % 4),
+        12 => Call::RawCopy(n, u.arbitrary().ok()?),
+        _ => {
+            if n % 2 == 0 {
+                Call::Finish
+            } else {
+                Call::Flush
+            }
+        }
+    })
 }
